@@ -70,6 +70,12 @@ def search_impl(ctx, exe, meta, limit_s=120):
     return None
 
 
+def ienv_ok(rng):
+    """tuning parameters in the documented regime relax <= maxsuper (relax > maxsuper is finding F13)"""
+    ms = rng.choice([2, 8, 200])
+    return [rng.choice([1, 2, 4, 8]), min(rng.choice([1, 2, 4, 6]), ms), ms, 200, 100, -50, -50, -30]
+
+
 def threaded_cases(ctx):
     rng = ctx.rng
     cases = []
@@ -84,9 +90,9 @@ def threaded_cases(ctx):
             cid += 1
             c = dict(id=cid, driver="gssv", m=A["n"], n=A["n"], colptr=A["colptr"], rowind=A["rowind"], vals=A["vals"],
                      nrhs=1, rhs=[1.0] * A["n"], nprocs=nprocs, colperm=rng.choice([0, 1, 2, 3]),
-                     ienv=[rng.choice([1, 2, 4, 8]), rng.choice([1, 2, 4, 6]), rng.choice([2, 8, 200]), 200, 100, -50, -50, -30],
+                     ienv=ienv_ok(rng),
                      perturb=[rng.randint(1, 10 ** 6), rng.choice([0.0, 0.2, 0.6]), rng.choice([0, 50, 300])],
-                     dumplu=0, timeout=60, kind=kind)
+                     dumplu=0, timeout=60, kind=kind, trace=4)
             cases.append(c)
     return cases
 
@@ -122,14 +128,15 @@ def run(ctx):
     # ---- threaded runs of the real driver
     exe_d = drv.build(ctx, "d", "hooks")
     cases = threaded_cases(ctx)
-    res = []
-    B = 40
-    from concurrent.futures import ThreadPoolExecutor
-    chunks = [cases[i:i + B] for i in range(0, len(cases), B)]
-    with ThreadPoolExecutor(max(1, vf.NCPU // 4)) as ex:
-        for rr in ex.map(lambda ch: drv.run_batch(exe_d, ch, timeout=900), chunks):
-            res += rr
-    nthr = 0
+    # one process per tuning-parameter tuple (p?gstrf_bmod2D caches sp_ienv values in statics) and few cases per process
+    res = drv.run_grouped(exe_d, cases, par=max(1, vf.NCPU // 4), chunk=8)
+    # the forest each run worked on (p?gssv does not hand it out): the preprocessing alone, same ordering option
+    pre = drv.run_grouped(exe_d, [dict(c, driver="colorder", perturb=None, nprocs=1, id=c["id"] + 100000) for c in cases], par=max(1, vf.NCPU // 4), chunk=25)
+    for r, p_ in zip(res, pre):
+        if isinstance(r, dict) and p_.get("etree") is not None and r.get("perm_c") == p_.get("perm_c"):
+            r["etree"] = p_["etree"]
+    nthr = 0; ntask = 0; tasks_broken = []
+    bdrv = ctx.ocaml_model("busy")
     for c, r in zip(cases, res):
         ctx.count(("thr", c["kind"], c["n"], tuple(c["rowind"][:50]), c["nprocs"], c["perturb"][0]), nontrivial=c["n"] >= 3,
                   kind="threaded-" + c["kind"])
@@ -152,12 +159,55 @@ def run(ctx):
                 bad = "worker threads begun/ended = %d/%d, nprocs = %d" % (r["thread_begin"], r["thread_end"], c["nprocs"])
             elif r["hooks"] and r["max_qtail"] > c["n"]:
                 bad = "task queue tail %d exceeds n = %d" % (r["max_qtail"], c["n"])
+            elif r["hooks"] and r.get("etree") is not None and r.get("info", 0) >= 0:
+                # K-exact tie of tasks_remain_exact: observed inside the scheduler lock after the i-th hand-out the counter must
+                # be (number of panels of ParallelInit's image, from the model) - i, down to 0
+                rc, out, err = vf.sh2([bdrv], inp="%d %d %d | %s | \n" % (c["n"], c["ienv"][0], c["ienv"][1], " ".join(map(str, r["etree"]))), timeout=60)
+                if rc != 0 or " T " not in out:
+                    ctx.broken.append("busy/sched model driver failed: %s" % (err[-200:] or out[:100]))
+                else:
+                    t0 = int(out.split(" T ")[1].split()[0]); ntask += 1
+                    want = list(range(t0 - 1, -1, -1)); got = r.get("sched_tasks", [])
+                    if got != want:
+                        i = next((i for i in range(min(len(got), len(want))) if got[i] != want[i]), min(len(got), len(want)))
+                        msg = ("tasks_remain inside the scheduler lock after hand-out %d is %s, the model (panels not yet handed out) "
+                               "says %s; %d hand-outs for %d panels" % (i, got[i] if i < len(got) else None, want[i] if i < len(want) else None, len(got), t0))
+                        if len(got) != t0:
+                            bad = msg            # a panel handed out twice or never: the property itself fails on this run
+                        elif not tasks_broken:
+                            tasks_broken.append((msg, c))
         if bad:
             key = {"kind": "threaded", "what": bad[:40]}
             if r.get("crash") is not None and c["kind"] == "singular":
-                key = {"kind": "input_class", "class": "structurally_empty_column_crash"}
+                key = {"kind": "input_class", "class": "structural_singularity_crash"}      # finding F22 (C06) seen from here
             ctx.violation("C04 threaded run: " + bad, {"case": c, "result": {k: v for k, v in r.items() if k != "events"}}, key=key)
+    if tasks_broken:
+        # the counter the worker loops poll is not what the model says: the correspondence is broken.  Search for a run on which
+        # the property itself fails (a lost update keeps tasks_remain > 0 for ever, or lets the dummy root be handed out):
+        # thousands of ready leaves, many workers leaving the scheduler at the same moment
+        msg, c0 = tasks_broken[0]
+        ctx.broken.append("correspondence tasks_remain (tasks_remain_exact): " + msg)
+        found = None
+        for rep in range(12):
+            n = 6000
+            ent = {(j, j): 4.0 for j in range(n)}
+            for j in range(n):
+                ent[(j, n - 1)] = 1.0
+            A = gen.from_entries(n, ent, "arrowcol")
+            sc = dict(id=90000 + rep, driver="gssv", m=n, n=n, colptr=A["colptr"], rowind=A["rowind"], vals=A["vals"], nrhs=1, rhs=[1.0] * n,
+                      nprocs=16, colperm=0, ienv=[1, 1, 200, 200, 100, -50, -50, -30], perturb=None, dumplu=0, timeout=20, kind="arrowcol")
+            r = drv.run_batch(exe_d, [sc], timeout=60)[0]
+            if r.get("timeout") or r.get("crash") is not None or r.get("info") != 0:
+                found = (sc, r); break
+        if found:
+            sc, r = found
+            what = "did not return within %d s" % sc["timeout"] if r.get("timeout") else ("crashed: %s" % (r.get("stderr") or "")[-200:] if r.get("crash") is not None else "returned info = %s for a nonsingular matrix" % r.get("info"))
+            ctx.violation("C04: p?gssv on a %d x %d arrow matrix with 16 workers %s (%s)" % (sc["n"], sc["n"], what, msg),
+                          {"case": sc, "generator": "arrowcol n=6000: diagonal 4, last column 1"}, key={"kind": "tasks_counter"})
+        else:
+            ctx.violation("C04: " + msg, {"case": c0}, key={"kind": "tasks_counter"}, found_input=False)
     ctx.cov["correspondence"]["threaded_runs"] = nthr
+    ctx.cov["correspondence"]["runs_with_tasks_remain_equal_to_model_at_every_handout"] = ntask
     ctx.sample({"threaded_case": {k: cases[0][k] for k in ("kind", "n", "nprocs", "colperm", "ienv", "perturb")}})
     ctx.cov["partial"] += ["fair termination (every fair run is finite) is not a theorem: proved are no-stuck-state and "
                            "monotone progress measures (tasks_remain never grows, panels only move UNREADY->CANPIPE->BUSY->DONE)",
